@@ -15,6 +15,7 @@ const refOrderHarness = `package PKG
 
 import (
 	"fmt"
+	"os"
 	"strings"
 	"testing"
 )
@@ -78,6 +79,21 @@ func TestVerifReplay(t *testing.T) {
 				} else if st.bad%97 == 0 && len(st.more) < 12 {
 					st.more = append(st.more, msg)
 				}
+			}
+		}
+	}
+	if os.Getenv("VERIF_DUMP") != "" {
+		// audit mode: a sample of (a, b, sign by the transcription) for comparison with the native tool
+		total := len(parsed) * len(parsed)
+		step := total/4000 + 1
+		if step%2 == 0 {
+			step++
+		}
+		for k := 0; k < total; k += step {
+			a, b := parsed[k/len(parsed)], parsed[k%len(parsed)]
+			want, class := verifRef(a.text, b.text)
+			if class != "" {
+				fmt.Printf("VERIF-PAIR %q %q %d %s\n", a.text, b.text, sgn(want), class)
 			}
 		}
 	}
@@ -684,6 +700,13 @@ func verifParse(version string) *verifItem {
 			stack = append(stack, nl)
 		case isD(c):
 			if !isDigit && i > start {
+				// 1.0.0.X1 < 1.0.0-X2: .X is treated as -X for any string qualifier X (as Maven 3.8 does)
+				if len(list.list) > 0 {
+					nl := &verifItem{kind: 2}
+					list.list = append(list.list, nl)
+					list = nl
+					stack = append(stack, nl)
+				}
 				list.list = append(list.list, verifStringItem(version[start:i], true))
 				start = i
 				nl := &verifItem{kind: 2}
@@ -705,6 +728,13 @@ func verifParse(version string) *verifItem {
 		}
 	}
 	if len(version) > start {
+		// .X is treated as -X for any string qualifier X
+		if !isDigit && len(list.list) > 0 {
+			nl := &verifItem{kind: 2}
+			list.list = append(list.list, nl)
+			list = nl
+			stack = append(stack, nl)
+		}
 		list.list = append(list.list, verifParseItem(isDigit, version[start:]))
 	}
 	for i := len(stack) - 1; i >= 0; i-- {
